@@ -32,4 +32,20 @@ var DirectedScenarios = []Directed{
 		s.Settle()
 		return s.Finish()
 	}},
+	{Name: "delete-with-error-child", Prop: "C09", Run: func(seed uint64) *HistResult {
+		s := NewScript(HistCfg{Seed: seed, Pct: 0, Metrics: true, GetOutcome: [4]int{100, 0, 0, 0}})
+		w := s.World()
+		w.AddColl("t.a", []Val{P(1), Ref("t.b")})
+		w.AddErr("t.b", "t.broken", "Broken")
+		c := s.Connect("1.1.1")
+		s.Req(c, "subscribe.t.a", nil)
+		s.AnswerExcept("get.t.b")
+		s.TimeoutReq("get.t.b")
+		s.Settle()
+		w.Delete("t.a")
+		s.Settle()
+		s.Req(c, "unsubscribe.t.a", nil)
+		s.Settle()
+		return s.Finish()
+	}},
 }
